@@ -158,6 +158,7 @@ func checkC11(w *World, r *Report) {
 	checkParsedBindingsKept(w, r)
 	checkTagTextConsumed(w, r, "R11.12")
 	checkLocalsBeforeGlobals(w, r)
+	checkIncludeOutputUnchanged(w, r)
 
 	// ---- R11.2 / R11.3 in IncludeNode.Render and its parts (unexported helpers with that one call
 	// site; flags may travel in a local struct of options and be tested by predicate helpers)
@@ -1317,4 +1318,112 @@ func checkLocalsBeforeGlobals(w *World, r *Report) {
 		})
 	}
 	r.floor("lookups of a name in the globals", n, 1)
+}
+
+// checkIncludeOutputUnchanged — R11.14: an include contributes exactly what the included template
+// renders.  In IncludeNode.Render and the package functions it hands its writer to, whatever is
+// written to that writer is not a slice or a trimmed / replaced form of rendered bytes: collecting
+// the fragment in a buffer first is fine, cutting "the final line end" off it is not — that byte
+// may be the end of an escaped value or of literal text the included template ends with.
+func checkIncludeOutputUnchanged(w *World, r *Report) {
+	n := 0
+	isWriter := func(t types.Type) bool { return isNamed(t, "io", "Writer") }
+	var family []*ssa.Function
+	seenF := map[*ssa.Function]bool{}
+	var add func(fn *ssa.Function, depth int)
+	add = func(fn *ssa.Function, depth int) {
+		if fn == nil || seenF[fn] || depth > 2 || len(fn.Blocks) == 0 {
+			return
+		}
+		seenF[fn] = true
+		family = append(family, fn)
+		instrsOf(fn, func(in ssa.Instruction) {
+			c, ok := in.(ssa.CallInstruction)
+			if !ok {
+				return
+			}
+			g := c.Common().StaticCallee()
+			if g == nil || !isTwigFn(g) {
+				return
+			}
+			for _, a := range c.Common().Args {
+				if p, ok := unspill(a).(*ssa.Parameter); ok && isWriter(p.Type()) {
+					// only helpers private to this renderer: not the general output helpers
+					if g.Object() != nil && !g.Object().Exported() && len(realInEdges(g)) <= 2 {
+						add(g, depth+1)
+					}
+				}
+			}
+		})
+	}
+	for _, fn := range w.pkgFuncs() {
+		if fn.Name() == "Render" && fn.Signature.Recv() != nil && isNamed(fn.Signature.Recv().Type(), twigPath, "IncludeNode") && fn.Synthetic == "" {
+			add(fn, 0)
+		}
+	}
+	for _, fn := range family {
+		var out *ssa.Parameter
+		for _, p := range fn.Params {
+			if isWriter(p.Type()) {
+				out = p
+			}
+		}
+		if out == nil {
+			continue
+		}
+		instrsOf(fn, func(in ssa.Instruction) {
+			c, ok := in.(ssa.CallInstruction)
+			if !ok {
+				return
+			}
+			cc := c.Common()
+			var data ssa.Value
+			if cc.IsInvoke() && unspill(cc.Value) == ssa.Value(out) && len(cc.Args) == 1 {
+				data = cc.Args[0]
+			} else if !cc.IsInvoke() && len(cc.Args) >= 2 && unspill(cc.Args[0]) == ssa.Value(out) {
+				switch cc.Args[1].Type().Underlying().(type) {
+				case *types.Basic, *types.Slice:
+					data = cc.Args[1]
+				}
+			}
+			if data == nil {
+				return
+			}
+			n++
+			bad := ""
+			seen := map[ssa.Value]bool{}
+			var walk func(v ssa.Value, d int)
+			walk = func(v ssa.Value, d int) {
+				v = unspill(v)
+				if v == nil || seen[v] || d > 8 || bad != "" {
+					return
+				}
+				seen[v] = true
+				switch x := v.(type) {
+				case *ssa.Phi:
+					for _, e := range x.Edges {
+						walk(e, d+1)
+					}
+				case *ssa.Slice:
+					if x.Low != nil || x.High != nil {
+						bad = "a slice of the rendered bytes"
+					}
+				case *ssa.Convert:
+					walk(x.X, d+1)
+				case *ssa.Call:
+					if g := x.Call.StaticCallee(); g != nil && g.Pkg != nil && (g.Pkg.Pkg.Path() == "strings" || g.Pkg.Pkg.Path() == "bytes") && !strings.HasPrefix(g.Name(), "New") {
+						bad = "the result of " + g.String()
+					}
+				}
+			}
+			walk(data, 0)
+			construct := "what the include writes is what the included template rendered"
+			if bad == "" {
+				r.ok("R11.14", ssaName(fn), construct, w.posOf(in.Pos()), "not a cut or rewritten form of rendered bytes", true)
+			} else {
+				r.bad("R11.14", ssaName(fn), construct, w.posOf(in.Pos()), "the include writes "+bad+": bytes the included template produced — the line end of an escaped value, trailing literal text — are dropped on the way into the page")
+			}
+		})
+	}
+	r.Counts["writes of IncludeNode.Render and its helpers to the page"] = n
 }
